@@ -116,6 +116,7 @@ type Contracts struct {
 	Extensions    []*FuncContract   // `extend func`: clauses merged into the base contract
 	AllMethods    []AllMethodsDecl  // every method of a type must be under contract for a property
 	RefWalks      []RefWalkDecl     // a traversal must read every field that can hold a reference
+	FieldShapes   []FieldShapeDecl  // every struct whose field <Index> is named <Name> declares it with type <Type>
 	PropertyScope map[string][]string // property -> properties whose scoped clauses also apply to it
 	PropertyClasses map[string][]string // property -> the obligation classes it consists of (default: all)
 	PropertyLevel   map[string][2]string // property -> evidence level other than proof, with its explanation
@@ -141,6 +142,16 @@ type WalkCompleteDecl struct {
 // RefWalkDecl: the traversal rooted at Root must read every struct field of the package's types
 // whose type is (a pointer to, a slice or a map of) one of RefTypes: a field it never reads is a
 // position whose references it cannot reach.
+// FieldShapeDecl: a fact about the declared struct types of a package that reflection-based code
+// relies on (decided by a scan of go/types, not assumed).
+type FieldShapeDecl struct {
+	Pkg   string
+	Index int
+	Name  string
+	Type  string
+	Tags  []string
+}
+
 type RefWalkDecl struct {
 	Pkg, Root string
 	RefTypes  []string
@@ -166,7 +177,7 @@ func newContracts() *Contracts {
 // their package's (e.g. per-call error objects are not part of the shared document).
 var classOverride = map[string]string{}
 
-var declKeywords = map[string]bool{"propertylevel": true, "propertyclasses": true, "propertyscope": true, "refwalk": true, "walkcomplete": true, "onlycalledby": true, "default-frame": true, "extend": true, "allmethods": true, "global": true, "guarded": true, "class": true, "func": true, "iface": true, "fnfield": true, "pred": true, "spec": true, "axiom": true,
+var declKeywords = map[string]bool{"propertylevel": true, "propertyclasses": true, "propertyscope": true, "refwalk": true, "fieldshape": true, "walkcomplete": true, "onlycalledby": true, "default-frame": true, "extend": true, "allmethods": true, "global": true, "guarded": true, "class": true, "func": true, "iface": true, "fnfield": true, "pred": true, "spec": true, "axiom": true,
 	"lemma": true, "ghost": true, "generate": true, "trusted": true}
 var clauseKeywords = map[string]bool{"requires": true, "ensures": true, "modifies": true, "panics_if": true, "loop": true,
 	"tag": true, "pure": true, "records": true, "preserves": true, "defines": true, "assuming": true, "secret": true, "untainted": true, "returns-untainted": true, "fresh": true, "reads": true, "option": true, "nosafety": true}
@@ -526,6 +537,19 @@ func (cs *Contracts) loadContractText(text, path, pkgPath string) error {
 				cs.PropertyScope = map[string][]string{}
 			}
 			cs.PropertyScope[f[0]] = append(cs.PropertyScope[f[0]], f[1:]...)
+		case "fieldshape":
+			cur = nil
+			// fieldshape @C20 0 Extensions : map[string]any
+			f := strings.Fields(rest)
+			k := strings.Index(rest, " : ")
+			var idx int
+			if len(f) < 5 || !strings.HasPrefix(f[0], "@") || k < 0 {
+				return fail("expected: fieldshape @PROP <index> <name> : <type>")
+			}
+			if _, err := fmt.Sscanf(f[1], "%d", &idx); err != nil {
+				return fail("expected: fieldshape @PROP <index> <name> : <type>")
+			}
+			cs.FieldShapes = append(cs.FieldShapes, FieldShapeDecl{Pkg: pkgPath, Index: idx, Name: f[2], Type: strings.TrimSpace(rest[k+3:]), Tags: []string{f[0][1:]}})
 		case "refwalk":
 			cur = nil
 			// refwalk @C16 <root function> : SchemaRef, ParameterRef, ...
